@@ -25,15 +25,30 @@ CLIENT = ["Boss", "Nameplate", "Mailbox", "Send", "Order", "Key", "_SortedKey", 
           "Lister", "Allocator", "Input", "Code", "Terminator"]
 CONNECTOR = "RendezvousConnector"
 APP_ATTR = "_W"             # Boss._W is the application-facing wormhole object
-OPAQUE_CLASSES = ("Dilator",)   # wired neighbours whose bodies are not interpreted here
+OPAQUE_CLASSES = ("Dilator",)   # wired neighbours whose bodies are not interpreted (unless the environment includes dilation)
+# the dilation extension: Dilator (plain class) and Manager (machine, created by Dilator.dilate) join the product
+DILATION_PLAIN = ("Dilator",)
+DILATION_MACHINES = ("Manager",)
+# attributes of the extension tracked as constants (class-level defaults and constructor assignments)
+# functions that are transparent for abstract payloads (decoding / decryption of an abstract body yields that body)
+IDENTITY_FUNCS = {"bytes_to_dict": 0, "hexstr_to_bytes": 0, "decrypt_data": 1}
+# integer / dict attributes tracked concretely (needed to keep the content of sequenced dilation messages)
+TRACKED_INTS = {("Boss", "_next_rx_dilate_seqnum")}
+TRACKED_DICTS = {("Boss", "_rx_dilate_seqnums")}
 # attributes tracked symbolically: the stored value is kept as C(<str const>) / C("<Ctor>()") / C("<param>")
 SYMBOLIC = {("Boss", "_result"), ("Mailbox", "_mood")}
 # verdict -> mood pairing (docs/server-protocol.rst "close" moods; "unwelcome" is the client's own fifth mood)
 VERDICT_MOOD = {"happy": "happy", "LonelyError()": "lonely", "WrongPasswordError()": "scary",
                 "ServerError()": "errory", "<welcome_error>": "unwelcome"}
 OBSERVED_EXC = ("CryptoError",)
+BUILTIN_ERRORS = {"ValueError", "TypeError", "RuntimeError", "KeyError", "IndexError", "AttributeError", "Exception",
+                  "AssertionError", "NotImplementedError", "LookupError"}
+# T3: causes the environment rules out - (function on top of the call stack, exception) -> reason
+T3_EXCLUDED_RAISES = {("Manager.choose_role", "ValueError"): "the peer's dilation side equals ours: sides are 64 random bits and a "
+                                                           "reflected `please` cannot be produced without the session key"}
 # lists tracked precisely as bounded lists of abstract items (every other list is T): value = required?
-TRACKED_LISTS = {("Order", "_queue"): True, ("Receive", "_early_messages"): False}
+TRACKED_LISTS = {("Order", "_queue"): True, ("Receive", "_early_messages"): False,
+                 ("Dilator", "_pending_inbound_dilate_messages"): False}
 
 
 # ---------------------------------------------------------------- abstract values
@@ -125,6 +140,29 @@ class METH(_Interned):
         return "METH(%s.%s)" % (self.cls, self.name)
 
 
+class OBJV(_Interned):
+    """reference to the (single) instance of a class created during the run"""
+    __slots__ = ("cls",)
+
+    def __new__(cls_, cls):
+        return cls_._get(cls, lambda o: setattr(o, "cls", cls))
+
+    def __repr__(self):
+        return "OBJV(%s)" % self.cls
+
+
+class MATCH(_Interned):
+    """result of re.search on constants: the tuple of groups"""
+    __slots__ = ("groups",)
+
+    def __new__(cls_, groups):
+        groups = tuple(groups)
+        return cls_._get(groups, lambda o: setattr(o, "groups", groups))
+
+    def __repr__(self):
+        return "MATCH%r" % (self.groups,)
+
+
 def _has_call(node):
     r = getattr(node, "_vt_has_call", None)
     if r is None:
@@ -147,7 +185,7 @@ def truth(v):
         return 'T' if v.s else 'F'
     if isinstance(v, (FL, TUP)):
         return 'T' if v.items else 'F'
-    if isinstance(v, METH):
+    if isinstance(v, (METH, OBJV, MATCH)):
         return 'T'
     return 'U'
 
@@ -248,9 +286,20 @@ class Viol:
 
 # ---------------------------------------------------------------- interpreter
 class Interp:
-    def __init__(self, prog, reentrant=False, list_bound=6, max_depth=80):
+    def __init__(self, prog, reentrant=False, list_bound=6, max_depth=80, dilation=False):
         self.prog = prog
         self.ALL = prog.classes
+        self.dilation = dilation
+        self.scope = set(CLIENT) | {CONNECTOR}
+        self.opaque = set(OPAQUE_CLASSES)
+        self.instantiable = set()
+        if dilation:
+            for c in DILATION_PLAIN + DILATION_MACHINES:
+                if c not in self.ALL:
+                    raise AnchorMissing("class %s not found" % c)
+            self.scope |= set(DILATION_PLAIN) | set(DILATION_MACHINES)
+            self.opaque -= set(DILATION_PLAIN)
+            self.instantiable = set(DILATION_MACHINES)
         for c in CLIENT + [CONNECTOR]:
             if c not in self.ALL:
                 raise AnchorMissing("client class %s not found" % c)
@@ -324,9 +373,30 @@ class Interp:
             f = e.func
             if isinstance(f, ast.Name) and f.id == "bool" and e.args:
                 return truth(self.ev(e.args[0], st, ctx))
-            if isinstance(f, ast.Name) and f.id == "bytes_to_dict" and len(e.args) == 1:
-                v = self.ev(e.args[0], st, ctx)
+            if isinstance(f, ast.Name) and f.id in IDENTITY_FUNCS and len(e.args) > IDENTITY_FUNCS[f.id]:
+                v = self.ev(e.args[IDENTITY_FUNCS[f.id]], st, ctx)
                 return v if isinstance(v, D) else 'U'
+            if isinstance(f, ast.Name) and f.id == "int" and len(e.args) == 1:
+                v = self.ev(e.args[0], st, ctx)
+                if isinstance(v, C) and isinstance(v.v, str) and v.v.isdigit():
+                    return C(int(v.v))
+                if isinstance(v, C) and isinstance(v.v, int):
+                    return v
+                return 'U'
+            if isinstance(f, ast.Attribute) and f.attr == "group" and len(e.args) == 1:
+                mo = self.ev(f.value, st, ctx)
+                idx = self.ev(e.args[0], st, ctx)
+                if isinstance(mo, MATCH) and isinstance(idx, C) and isinstance(idx.v, int) and 1 <= idx.v <= len(mo.groups):
+                    g = mo.groups[idx.v - 1]
+                    return C(g) if g is not None else C(None)
+                return 'U'
+            if isinstance(f, ast.Attribute) and f.attr == "pop" and isinstance(f.value, ast.Attribute) and isinstance(f.value.value, ast.Name) \
+                    and f.value.value.id == "self" and len(e.args) >= 1:
+                base = st.get(('a', ctx.cls.name, f.value.attr))
+                k = self.ev(e.args[0], st, ctx)
+                if isinstance(base, D) and isinstance(k, C) and k.v in base.d:
+                    return base.d[k.v]      # (the removal is done by do_call)
+                return 'U'
             if isinstance(f, ast.Name) and f.id == "getattr" and len(e.args) >= 2 \
                     and isinstance(e.args[0], ast.Name) and e.args[0].id == "self":
                 n = self.ev(e.args[1], st, ctx)
@@ -346,9 +416,12 @@ class Interp:
                 s = self.ev(e.args[1], st, ctx)
                 if isinstance(pat, C) and isinstance(s, C) and isinstance(s.v, str) and isinstance(pat.v, str):
                     try:
-                        return 'T' if re.search(pat.v, s.v) else 'F'
+                        mo = re.search(pat.v, s.v)
                     except re.error:
                         return 'U'
+                    if not mo:
+                        return C(None)
+                    return MATCH(mo.groups()) if mo.groups() else 'T'
                 return 'U'
             if isinstance(f, ast.Attribute) and f.attr == "get" and e.args:
                 base = self.ev(f.value, st, ctx)
@@ -386,6 +459,12 @@ class Interp:
 
     # -- call resolution ---------------------------------------------------
     def resolve(self, call, ctx):
+        kind, c, name = self._resolve(call, ctx)
+        if kind in ("input", "method") and c is not None and c.name not in self.scope and c.name not in self.opaque:
+            return (None, c, name)      # a class outside the interpreted product: an external call
+        return (kind, c, name)
+
+    def _resolve(self, call, ctx):
         f = call.func
         if isinstance(f, ast.Name):
             v = ctx.locs.get(f.id)
@@ -395,6 +474,13 @@ class Interp:
                     return ("input", c, v.name)
                 return ("method", c, v.name)
             return (None, None, None)
+        if isinstance(f, ast.Attribute) and isinstance(f.value, ast.Name) and isinstance(ctx.locs.get(f.value.id), OBJV):
+            c = self.ALL[ctx.locs[f.value.id].cls]
+            if f.attr in c.inputs:
+                return ("input", c, f.attr)
+            if f.attr in c.methods:
+                return ("method", c, f.attr)
+            return (None, c, f.attr)
         if isinstance(f, ast.Attribute):
             v = f.value
             if isinstance(v, ast.Name) and v.id == "self":
@@ -529,14 +615,19 @@ class Interp:
                 else:
                     raise AnalysisError("RendezvousConnector._tx called with a non-constant message type "
                                         "(stack %s)" % " > ".join(self.stack[-3:]))
-            if tgt.name in OPAQUE_CLASSES:
+            if tgt.name in self.opaque:
                 if meth == "stop":
                     st = st.cp()
                     st[('e', 'd_stop_pending')] = 'T'
                 return [(st, 'U', None)]
-            if tgt.name not in CLIENT and tgt.name != CONNECTOR:
+            if tgt.name not in self.scope:
                 return [(st, 'U', None)]
             return self.run_method(tgt, meth, st, self.bind(tgt.methods[meth], argvals, kwvals))
+        # creation of the (single) instance of a class that joins the product when it is created
+        f0 = call.func
+        cname = f0.id if isinstance(f0, ast.Name) else None
+        if cname in self.instantiable:
+            return [(self._instantiate(cname, st), OBJV(cname), None)]
         # an external call.  (a) it may hand a continuation to Twisted; (b) it may stop the ClientService
         st = self._external_effects(call, st, ctx)
         # tracked collection mutation: self._attr.add(x) / .append(x)
@@ -545,6 +636,15 @@ class Interp:
                 and f.value.value.id == "self":
             k = ('a', ctx.cls.name, f.value.attr)
             cur = st.get(k)
+            if isinstance(cur, D) and (ctx.cls.name, f.value.attr) in TRACKED_DICTS:
+                if f.attr == "pop" and argvals and isinstance(argvals[0], C) and argvals[0].v in cur.d:
+                    st = st.cp()
+                    val = cur.d[argvals[0].v]
+                    st[k] = D({kk: vv for kk, vv in cur.d.items() if kk != argvals[0].v})
+                    return [(st, val, None)]
+                st = st.cp()
+                st[k] = 'U'
+                return [(st, 'U', None)]
             if isinstance(cur, FS):
                 if f.attr == "add" and argvals:
                     st = st.cp()
@@ -568,6 +668,12 @@ class Interp:
                     st = st.cp()
                     st[k] = FL(())
                     return [(st, 'U', None)]
+                if f.attr == "popleft" or (f.attr == "pop" and argvals and argvals[0] == C(0)):
+                    st = st.cp()
+                    if cur.items:
+                        st[k] = FL(cur.items[1:])
+                        return [(st, cur.items[0], None)]
+                    return [(st, 'U', ('raise', 'IndexError'))]
                 if f.attr in ("pop", "insert", "extend", "remove", "reverse", "sort"):
                     st = st.cp()
                     st[k] = 'U'
@@ -616,6 +722,29 @@ class Interp:
             st[('k', cid)] = 'T'
         return st
 
+    def _instantiate(self, cname, st):
+        c = self.ALL[cname]
+        st = st.cp()
+        if ('m', cname) in st:
+            self.add_viol("second-instance", "a second %s is created" % cname)
+        st[('m', cname)] = c.initial
+        # class-level constant defaults and constants assigned by the constructor
+        for n in c.node.body:
+            if isinstance(n, ast.Assign) and len(n.targets) == 1 and isinstance(n.targets[0], ast.Name) and isinstance(n.value, ast.Constant) \
+                    and (n.value.value is None or isinstance(n.value.value, bool)):
+                st[('a', cname, n.targets[0].id)] = C(n.value.value)
+        for mname in ("__init__", "__attrs_post_init__"):
+            fn = c.methods.get(mname)
+            if fn is None:
+                continue
+            for n in ast.walk(fn):
+                if isinstance(n, ast.Assign) and len(n.targets) == 1:
+                    t = n.targets[0]
+                    if isinstance(t, ast.Attribute) and isinstance(t.value, ast.Name) and t.value.id == "self" and isinstance(n.value, ast.Constant) \
+                            and (n.value.value is None or isinstance(n.value.value, bool)):
+                        st[('a', cname, t.attr)] = C(n.value.value)
+        return st
+
     def run_continuation(self, cid, st):
         cls, what = self.continuations[cid]
         st = st.cp()
@@ -655,6 +784,11 @@ class Interp:
             self.stack.pop()
 
     def fire(self, cls, inp, st, inlocs):
+        if ('m', cls.name) not in st:
+            self.add_viol("no-instance", "%s.%s is fired before a %s exists" % (cls.name, inp, cls.name))
+            st = st.cp()
+            st[('e', 'failed')] = 'T'
+            return [(st, 'U', ('raise', 'AttributeError'))]
         cur = st[('m', cls.name)]
         self.stack.append("%s[%s].%s" % (cls.name, cur, inp))
         try:
@@ -821,11 +955,15 @@ class Interp:
             vv = v if isinstance(v, FL) else 'U'
         elif isinstance(cur, FS) or isinstance(vv, D):
             vv = vv if isinstance(vv, FS) else 'U'
+        if (cls.name, attr) in TRACKED_INTS:
+            s2 = s2.cp()
+            s2[k] = vv if isinstance(vv, C) and isinstance(vv.v, int) else 'U'
+            return s2
         if vv == 'U':
             vv = 'T'   # T3: values stored into nullable attributes are non-empty objects
         if isinstance(vv, C) and not (vv.v is None or isinstance(vv.v, bool)):
             vv = 'T' if vv.v else 'F'
-        if isinstance(vv, (TUP, METH)):
+        if isinstance(vv, (TUP, METH, OBJV, MATCH)):
             vv = truth(vv)
         s2 = s2.cp()
         s2[k] = vv
@@ -879,6 +1017,14 @@ class Interp:
                 name = getattr(f, "id", getattr(f, "attr", "?"))
                 if isinstance(e, ast.Name) and isinstance(locs.get(e.id), str) and e.id == locs.get('__caught_as__'):
                     name = locs.get('__caught__', name)
+            if e is not None and name in BUILTIN_ERRORS:
+                # an explicit raise of a builtin error inside the client is one of its own "cannot happen" checks:
+                # reaching it under the environment is an internal failure (C14), unless T3 excludes the cause
+                where = (self.stack[-1] if self.stack else "?")
+                if (where, name) not in T3_EXCLUDED_RAISES:
+                    self.add_viol("Raise", "%s: raise %s" % (where, name), site="%s:%d" % (ctx.cls.file, stmt.lineno))
+                st = st.cp()
+                st[('e', 'failed')] = 'T'
             return [(st, locs, ('raise', name))]
         if isinstance(stmt, ast.Assert):
             v = truth(self.ev(stmt.test, st, ctx))
@@ -906,7 +1052,12 @@ class Interp:
                     elif isinstance(t, ast.Attribute) and isinstance(t.value, ast.Name) and t.value.id == "self" \
                             and ('a', ctx.cls.name, t.attr) in s:
                         s2 = s.cp()
-                        s2[('a', ctx.cls.name, t.attr)] = 'U'
+                        curv = s[('a', ctx.cls.name, t.attr)]
+                        if (ctx.cls.name, t.attr) in TRACKED_INTS and isinstance(curv, C) and isinstance(curv.v, int) \
+                                and isinstance(v, C) and isinstance(v.v, int) and isinstance(stmt.op, ast.Add) and curv.v + v.v <= 64:
+                            s2[('a', ctx.cls.name, t.attr)] = C(curv.v + v.v)
+                        else:
+                            s2[('a', ctx.cls.name, t.attr)] = 'U'
                         res.append((s2, locs, None))
                     else:
                         res.append((s, locs, None))
@@ -941,7 +1092,17 @@ class Interp:
                     elif isinstance(t, ast.Subscript) and isinstance(t.value, ast.Attribute) \
                             and isinstance(t.value.value, ast.Name) and t.value.value.id == "self":
                         k = ('a', ctx.cls.name, t.value.attr)
-                        if k in s2:
+                        if k in s2 and (ctx.cls.name, t.value.attr) in TRACKED_DICTS and not isinstance(t.slice, ast.Slice):
+                            kv = self.ev(t.slice, s2, Ctx(ctx.cls, l2, ctx.exc))
+                            curd = s2[k]
+                            s2 = s2.cp()
+                            if isinstance(curd, D) and isinstance(kv, C) and len(curd.d) < 8:
+                                nd = dict(curd.d)
+                                nd[kv.v] = v
+                                s2[k] = D(nd)
+                            else:
+                                s2[k] = 'U'
+                        elif k in s2:
                             if isinstance(t.slice, ast.Slice) and isinstance(stmt.value, ast.List) and not stmt.value.elts \
                                     and isinstance(s2[k], FL) or (isinstance(t.slice, ast.Slice) and s2[k] == 'U'
                                                                   and (ctx.cls.name, t.value.attr) in TRACKED_LISTS
@@ -1116,7 +1277,7 @@ class Interp:
         st = S(self.ix)
         for c in CLIENT:
             st[('m', c)] = self.ALL[c].initial
-        for cname in CLIENT + [CONNECTOR]:
+        for cname in CLIENT + [CONNECTOR] + (list(DILATION_PLAIN) if self.dilation else []):
             c = self.ALL[cname]
             for mname in ("__init__", "__attrs_post_init__", "_init_other_state"):
                 fn = c.methods.get(mname)
@@ -1131,11 +1292,18 @@ class Interp:
                             elif isinstance(n.value, ast.Call) and getattr(n.value.func, "id", None) == "set" \
                                     and not n.value.args:
                                 st[('a', cname, t.attr)] = FS()
-                            elif isinstance(n.value, ast.List) and not n.value.elts and (cname, t.attr) in TRACKED_LISTS:
+                            elif (cname, t.attr) in TRACKED_LISTS and (
+                                    (isinstance(n.value, ast.List) and not n.value.elts) or
+                                    (isinstance(n.value, ast.Call) and getattr(n.value.func, "id", None) == "deque" and not n.value.args)):
                                 st[('a', cname, t.attr)] = FL(())
                             elif (cname, t.attr) in SYMBOLIC and isinstance(n.value, ast.Constant) \
                                     and isinstance(n.value.value, str):
                                 st[('a', cname, t.attr)] = C(n.value.value)
+                            elif (cname, t.attr) in TRACKED_INTS and isinstance(n.value, ast.Constant) \
+                                    and isinstance(n.value.value, int):
+                                st[('a', cname, t.attr)] = C(n.value.value)
+                            elif (cname, t.attr) in TRACKED_DICTS and isinstance(n.value, ast.Dict) and not n.value.keys:
+                                st[('a', cname, t.attr)] = D({})
             # attrs fields named _side are all wired to the one Boss._side (discharged by C02.R3)
             if "_side" in c.attr_fields:
                 st[('a', cname, "_side")] = C("SIDE-OURS")
@@ -1157,9 +1325,11 @@ class Env:
     """Options of the environment (DESIGN.md section 3, T3)."""
 
     def __init__(self, phases=("pake", "version", "0"), dilate=False, reentrant=False,
-                 postclose_helper=False, budget=400000, name="quick"):
+                 postclose_helper=False, budget=400000, name="quick", dilation_manager=False, api=None):
         self.phases = tuple(phases)
         self.dilate = dilate
+        self.dilation_manager = dilation_manager
+        self.api = tuple(api) if api else ("set_code", "allocate_code", "input_code", "send", "helpers")
         self.reentrant = reentrant
         self.postclose_helper = postclose_helper
         self.budget = budget
@@ -1168,6 +1338,7 @@ class Env:
     def describe(self):
         return {"name": self.name, "phases": list(self.phases), "dilation_sends": self.dilate,
                 "reentrant_delegate": self.reentrant, "helper_after_close": self.postclose_helper,
+                "dilation_manager_in_product": self.dilation_manager, "api_calls": list(self.api) + ["close"],
                 "state_budget": self.budget}
 
 
@@ -1179,7 +1350,7 @@ class Explorer:
     def __init__(self, prog, env):
         self.prog = prog
         self.env = env
-        self.I = Interp(prog, reentrant=env.reentrant, list_bound=max(6, len(env.phases)))
+        self.I = Interp(prog, reentrant=env.reentrant, list_bound=max(6, len(env.phases)), dilation=env.dilation_manager)
         A = self.I.ALL
         self.RC, self.B, self.In = A[CONNECTOR], A["Boss"], A["Input"]
         # anchors of the environment (fail closed when one vanishes)
@@ -1240,6 +1411,19 @@ class Explorer:
         I = self.I
         return self.top(I.run_method(self.RC, "ws_message", st, {"payload": D(d)}))
 
+    def body_of(self, side, phase):
+        """abstract payload of a message.  With the dilation manager in the product the peer's dilation messages carry
+        their type (T3: a conformant peer sends `please` as dilate-0 and connection hints afterwards)"""
+        if not self.env.dilation_manager or side != "SIDE-THEIRS":
+            return 'T'
+        if phase == "version":
+            return D({"app_versions": 'U', "can-dilate": 'U'})
+        if phase == "dilate-0":
+            return D({"type": C("please"), "side": 'T'})
+        if phase.startswith("dilate-"):
+            return D({"type": C("connection-hints"), "hints": 'U'})
+        return 'T'
+
     def srvdone(self, s, h):
         if h == "released":
             s = self.unmark(s, 'srv_claimed')
@@ -1258,17 +1442,21 @@ class Explorer:
         B, RC = self.B, self.RC
         if api_open:
             for m in ("set_code", "allocate_code", "input_code"):
-                evs.append(("api." + m, lambda s, m=m: self.top(I.run_method(B, m, s, {}))))
-            evs.append(("api.send", lambda s: self.top(I.fire(B, "send", s, {}))))
+                if m in env.api:
+                    evs.append(("api." + m, lambda s, m=m: self.top(I.run_method(B, m, s, {}))))
+            if "send" in env.api:
+                evs.append(("api.send", lambda s: self.top(I.fire(B, "send", s, {}))))
             if env.dilate and g('dilating') != 'T':
                 evs.append(("api.dilate", lambda s: [self.mark(s, 'dilating')]))
+            if env.dilation_manager and g('dilating') != 'T':
+                evs.append(("api.dilate", lambda s: self.top(I.run_method(B, "dilate", self.mark(s, 'dilating'), {}))))
         if g('app_closed') != 'T':
             evs.append(("api.close", lambda s: self.top(I.fire(B, "close", self.mark(s, 'api_closed'), {}))))
-        if st[('m', 'Input')] != self.In.initial and (api_open or (env.postclose_helper and g('app_closed') != 'T')):
+        if "helpers" in env.api and st[('m', 'Input')] != self.In.initial and (api_open or (env.postclose_helper and g('app_closed') != 'T')):
             for m in self.helper_inputs:
                 evs.append(("helper." + m, lambda s, m=m: self.top(I.fire(self.In, m, s, {}))))
             evs.append(("helper.choose_nameplate", lambda s: self.top(I.run_method(self.In, "choose_nameplate", s, {}))))
-        if g('dilating') == 'T' and g('d_stopped') != 'T' and g('d_stop_pending') != 'T':
+        if env.dilate and g('dilating') == 'T' and g('d_stopped') != 'T' and g('d_stop_pending') != 'T':
             evs.append(("dilation.Send.send", lambda s: self.top(
                 I.fire(A["Send"], "send", s, {"phase": C("dilate-0"), "plaintext": 'T'}))))
         dead = g('rc_dead') == 'T'
@@ -1300,7 +1488,7 @@ class Explorer:
                 for side in ("SIDE-OURS", "SIDE-THEIRS"):
                     for ph in env.phases:
                         evs.append(("srv.message(%s,%s)" % (side[5:], ph), lambda s, side=side, ph=ph: self.server_msg(
-                            s, "message", {"side": C(side), "phase": C(ph), "body": 'T'})))
+                            s, "message", {"side": C(side), "phase": C(ph), "body": self.body_of(side, ph)})))
         if stopping:
             # ClientService.stopService(): the open connection (if any) is closed, then its Deferred fires
             def service_stopped(s):
@@ -1313,7 +1501,18 @@ class Explorer:
         if not stopping:
             for k, v in st.items():
                 if k[0] == 'k' and v == 'T':
+                    if k[1].startswith("Dilator.") and ('m', 'Manager') in st and not A["Manager"].states[st[('m', 'Manager')]]["terminal"]:
+                        continue    # chained on Manager.when_stopped(): fires once the manager has stopped
                     evs.append(("deferred:" + k[1], lambda s, cid=k[1]: self.top(I.run_continuation(cid, s))))
+        if env.dilation_manager and ('m', 'Manager') in st:
+            M = A["Manager"]
+            ms = st[('m', 'Manager')]
+            # the Connector reports a selected connection only while the manager is waiting for one ...
+            if any(r.src == ms for r in M.rows_on("connection_made")):
+                evs.append(("connector.connection_made", lambda s: self.top(I.run_method(M, "connector_connection_made", s, {"c": 'T'}))))
+            # ... and the loss of the connection in use at any later time
+            if any(r.src == ms for r in M.rows_on("connection_lost_leader")) or any(r.src == ms for r in M.rows_on("connection_lost_follower")):
+                evs.append(("connector.connection_lost", lambda s: self.top(I.run_method(M, "connector_connection_lost", s, {}))))
         if g('d_stop_pending') == 'T':
             evs.append(("dilator_stopped", lambda s: self.top(I.fire(
                 A["Terminator"], "stoppedD", self.mark(self.unmark(s, 'd_stop_pending'), 'd_stopped'), {}))))
@@ -1448,6 +1647,8 @@ ENVS = {
     "phases4": Env(phases=("pake", "version", "0", "1"), name="phases4"),
     "phases-dilate": Env(phases=("pake", "version", "0", "dilate-0"), name="phases-dilate"),
     "phases-unknown": Env(phases=("pake", "version", "0", "weird"), name="phases-unknown"),
+    "dilation": Env(phases=("pake", "version", "dilate-0", "dilate-1"), dilation_manager=True, api=("set_code",), name="dilation"),
+    "dilation-full": Env(phases=("pake", "version", "dilate-0", "dilate-1"), dilation_manager=True, name="dilation-full"),
 }
 
 
